@@ -52,6 +52,7 @@ type vfC12Case struct {
 type vfC12Target struct {
 	varints func(w *vfC12World, seed []byte) []int // offsets of length varints in a valid seed
 	fields  [][2]int                               // {offset, width} of little-endian integer header fields of the format
+	cidx    bool                                   // the input is a compact index file (header with key/value metadata)
 	name  string
 	seeds func(w *vfC12World) [][]byte
 	run   func(w *vfC12World, data []byte) (deep bool)
@@ -279,7 +280,7 @@ var vfC12Targets = []vfC12Target{
 		readNodeSizeFromReaderAtWithOffset(&vfRAC{d}, 0)
 		return err == nil
 	}},
-	{name: "compactindexsized", seeds: vfFileSeed("cid", "slot", "sig", "pubkey"), run: func(w *vfC12World, d []byte) bool { return vfCompactQuery(d) }},
+	{name: "compactindexsized", cidx: true, seeds: vfFileSeed("cid", "slot", "sig", "pubkey"), run: func(w *vfC12World, d []byte) bool { return vfCompactQuery(d) }},
 	{name: "compactindex-legacy8", seeds: vfFileSeed("legacy8"), run: func(w *vfC12World, d []byte) bool {
 		db, err := compactindex.Open(bytes.NewReader(d))
 		if err != nil {
@@ -300,7 +301,7 @@ var vfC12Targets = []vfC12Target{
 		db.Lookup([]byte{1, 1, 2})
 		return true
 	}},
-	{name: "typed-indexes", seeds: vfFileSeed("cid", "slot", "sig", "pubkey", "legacy36"), run: func(w *vfC12World, d []byte) bool {
+	{name: "typed-indexes", cidx: true, seeds: vfFileSeed("cid", "slot", "sig", "pubkey", "legacy36"), run: func(w *vfC12World, d []byte) bool {
 		deep := false
 		if r, err := indexes.OpenWithReader_CidToOffsetAndSize(&vfRAC{d}); err == nil {
 			deep = true
@@ -390,7 +391,7 @@ var vfC12Targets = []vfC12Target{
 		}
 		return true
 	}},
-	{name: "gsfa-dir", seeds: vfFileSeed("linkedlog", "manifest", "pubkey"), run: func(w *vfC12World, d []byte) bool {
+	{name: "gsfa-dir", cidx: true, seeds: vfFileSeed("linkedlog", "manifest", "pubkey"), run: func(w *vfC12World, d []byte) bool {
 		deep := false
 		for _, fname := range []string{"linked-log", "manifest", string(indexes.Kind_PubkeyToOffsetAndSize) + ".index"} {
 			tdir := filepath.Join(w.dir, "gsfa-fuzz")
@@ -506,7 +507,10 @@ var vfCborHeadBytes = []byte{0x00, 0x17, 0x18, 0x19, 0x1a, 0x1b, 0x20, 0x3b, 0x4
 // vfC12mutate derives a hostile input from a valid seed.
 func vfC12mutate(t *rapid.T, tg *vfC12Target, seed []byte) ([]byte, string) {
 	d := append([]byte{}, seed...)
-	how := rapid.SampledFrom([]string{"field", "field", "field2", "truncate", "cbor-head", "cbor-head", "flip", "random", "extend", "empty-or-tiny", "valid", "varint", "cbor-int", "cbor-len", "nudge", "nudge"}).Draw(t, "how")
+	how := rapid.SampledFrom([]string{"field", "field", "field2", "truncate", "cbor-head", "cbor-head", "flip", "random", "extend", "empty-or-tiny", "valid", "varint", "cbor-int", "cbor-len", "nudge", "nudge", "meta"}).Draw(t, "how")
+	if how == "meta" && !tg.cidx {
+		how = "nudge"
+	}
 	if !tg.cbor && (how == "cbor-int" || how == "cbor-len") {
 		how = "field"
 	}
@@ -618,6 +622,40 @@ func vfC12mutate(t *rapid.T, tg *vfC12Target, seed []byte) ([]byte, string) {
 			}
 			enc := binary.AppendUvarint(nil, v)
 			d = append(append(append([]byte{}, d[:off]...), enc...), d[min(len(d), off+n):]...)
+		}
+	case "meta":
+		// the key/value metadata of a compact index re-encoded with one pair changed (value of another length,
+		// pair missing, key changed, pair repeated, order changed); the file stays well-formed around it
+		var h compactindexsized.Header
+		if len(d) >= 12 && h.Load(d[:min(len(d), 12+int(binary.LittleEndian.Uint32(d[8:12])))]) == nil && len(h.Metadata.KeyVals) > 0 {
+			oldLen := 12 + int(binary.LittleEndian.Uint32(d[8:12]))
+			kvs := h.Metadata.KeyVals
+			i := rapid.IntRange(0, len(kvs)-1).Draw(t, "metaPair")
+			switch rapid.IntRange(0, 5).Draw(t, "metaOp") {
+			case 0, 1:
+				n := rapid.SampledFrom([]int{0, 1, 2, 3, 4, 7, 9, 16, 33, 35, 37, 255}).Draw(t, "metaValLen")
+				v := make([]byte, n)
+				for j := range v {
+					v[j] = 1
+				}
+				copy(v, kvs[i].Value)
+				kvs[i].Value = v
+			case 2:
+				kvs = append(kvs[:i:i], kvs[i+1:]...)
+			case 3:
+				k := append([]byte{}, kvs[i].Key...)
+				if len(k) > 0 {
+					k[0] ^= 1
+				}
+				kvs[i].Key = k
+			case 4:
+				kvs = append(kvs, indexmeta.KV{Key: kvs[i].Key, Value: rapid.SliceOfN(rapid.Byte(), 0, 40).Draw(t, "metaDupVal")})
+			case 5:
+				j := rapid.IntRange(0, len(kvs)-1).Draw(t, "metaSwap")
+				kvs[i], kvs[j] = kvs[j], kvs[i]
+			}
+			h.Metadata.KeyVals = kvs
+			d = append(h.Bytes(), d[oldLen:]...)
 		}
 	case "nudge":
 		// an integer of the input (a known header field of the format, or any aligned position) moved by a small
